@@ -14,6 +14,28 @@ CLAIMS = {
             "The Layer-2 models of the upward and downward antichain algorithms are model-checked for every work-list order on the same bound.",
             "Trusted: TLC, the Layer-0 oracle (cross-checked in TLC against bounded tree enumeration), the driver's read-back through the public API. "
             "Exhaustive only within the stated bounds; sampled beyond.", "DESIGN.md §4 C01"),
+    "C02": (MC, "TLC-enumerated and random operand pairs replayed on libvata; TLA+ trace validation of result automaton, reported maps and operand snapshots against TA!Union / TA!Prod",
+            "Union, UnionDisjointStates, Intersection and IntersectionBU are run on every sampled pair of the exhaustive bound and on random pairs (overlapping numbers, "
+            "no / fresh / pre-filled maps); TLC decides language equality with the spec's union/product, that every result state is named by the maps and has the "
+            "language of what it stands for, and that operands are unchanged.",
+            "Trusted: TLC, Layer-0 oracle, driver read-back. Non-canonical results (state naming) are judged by contract, not by a fixed expected output.", "DESIGN.md §4 C02"),
+    "C03": (MC, "TLC-enumerated and random automata replayed on libvata; TLA+ trace validation against TA!Trim / TopReach / Empty",
+            "RemoveUnreachableStates, RemoveUselessStates and IsLangEmpty are run on the single automata of bound B1' and random ones; TLC decides language "
+            "preservation, the reachability / usefulness postconditions and the emptiness verdict.", "Trusted: TLC, Layer-0 oracle, driver read-back.", "DESIGN.md §4 C03"),
+    "C04": (MC, "TLC-enumerated and random automata under random dense numberings replayed on libvata; relations compared entry by entry with the greatest fixpoints TA!DownSim / TA!UpSim",
+            "The relation returned by ComputeSimulation is read with get(q,r) for all q,r<n and compared with the spec's greatest downward simulation (every input) and "
+            "greatest upward simulation (trimmed inputs) computed by TLC; numbering independence follows because every case is run under a random dense numbering.",
+            "Trusted: TLC, the gfp definitions in spec/TA.tla (these are the property's own wording).", "DESIGN.md §4 C04"),
+    "C05": (MC, "TLC-enumerated and random automata replayed on libvata; TLA+ trace validation of Reduce's result",
+            "TLC decides language equality, the two size bounds and that every result state has the language of some input state.", "Trusted: TLC, Layer-0 oracle.", "DESIGN.md §4 C05"),
+    "C06": (MC, "TLC-enumerated and random automata x private alphabets replayed on libvata; TLA+ trace validation: A and C disjoint, A u C universal over S, Syms(C) within S",
+            "Complement is run with a private on-the-fly alphabet per case (extra registered symbols, nullary-only alphabets, empty and universal languages); TLC decides "
+            "the three clauses with the inclusion oracle.", "Result rules are interpreted through the operand's alphabet.", "DESIGN.md §4 C06"),
+    "C14": (MC, "TLC-enumerated and random automata x state/symbol maps replayed on libvata; result compared for set equality with TA!Image",
+            "ReindexStates (weak translator with pre-filled partial map, functor, functor into a non-empty destination), CollapseStates and TranslateSymbols: TLC checks "
+            "result = image exactly, and the contents of weak translators after the call.", "Trusted: TLC, driver read-back.", "DESIGN.md §4 C14"),
+    "C15": (MC, "TLC-enumerated and random automata replayed on libvata; TLA+ trace validation of GetCandidateTree's result",
+            "TLC decides L(W) within L(A) and W non-empty whenever A is.", "Trusted: TLC, Layer-0 oracle.", "DESIGN.md §4 C15"),
 }
 
 NOT_APPLICABLE = {
